@@ -86,6 +86,26 @@ def check(run):
                                   "np.linalg.norm(grad) without axis reduces over ALL dimensions: with leading dimensions only the whole array, not each leading index, has unit norm")
                 else:
                     run.violation("F-PATH/last-axis-reduction", c, where(g, call), f"normalisation uses axis={norm(axis.value)} keepdims={norm(keep.value) if keep else None}; expected axis=-1, keepdims=True")
+    # "with normalisation has unit Euclidean norm": the division by the norm may skip exactly the slices whose norm is ZERO (nothing to normalise), never the slices whose
+    # norm is merely small - a gradient of magnitude 1e-9 is as normalisable as one of magnitude 1
+    for call in ast.walk(g.node):
+        if isinstance(call, ast.Call) and (dotted(call.func) or [""])[-1] == "divide":
+            wh = next((k.value for k in call.keywords if k.arg == "where"), None)
+            c = f"{g.key}:normalise-every-nonzero-slice"
+            if wh is None:
+                continue
+            if isinstance(wh, ast.Compare) and len(wh.ops) == 1:
+                other = wh.comparators[0] if not isinstance(wh.left, ast.Constant) else wh.left
+                zero = isinstance(other, ast.Constant) and other.value in (0, 0.0)
+                if zero and isinstance(wh.ops[0], (ast.Gt, ast.NotEq, ast.Lt)):
+                    run.holds("F-PATH/normalise-every-slice", c, where(g, call), "only slices of norm zero are left as they are")
+                elif not zero:
+                    run.violation("F-PATH/normalise-every-slice", c, where(g, call), f"the division by the norm is applied only where `{norm(wh)[:50]}`: slices whose norm lies below that threshold "
+                                  "(small-valued fields) are returned un-normalised, their norm is not 1")
+                else:
+                    run.incomplete("F-PATH/normalise-every-slice", c, where(g, call), f"where={norm(wh)[:50]} not evaluated")
+            else:
+                run.incomplete("F-PATH/normalise-every-slice", c, where(g, call), f"where={norm(wh)[:50]} not evaluated")
     # boundary guard: division only on saddle edges, zero default
     assigns = [st for st in iter_stmts(g.node.body) if isinstance(st, ast.Assign) and isinstance(st.targets[0], ast.Subscript) and isinstance(st.value, ast.BinOp) and isinstance(st.value.op, ast.Div)]
     c = f"{g.key}:divide-on-saddle-edges"
